@@ -1317,7 +1317,7 @@ async fn run_cell_inner(
         // ------------------------------------------------ RTP each way, each kind
         if !cell.kinds().is_empty() {
             let canary = Canary::start();
-            let r = rtp_exchange(cell, &mut rng, a, b, &canary, &mut obs).await;
+            let r = rtp_exchange(cell, payload_seed % 4 == 1, &mut rng, a, b, &canary, &mut obs).await;
             match r {
                 Ok((x, y)) => {
                     compared_each_way.0 += x;
@@ -1420,6 +1420,7 @@ fn kind_name(k: MediaKind) -> &'static str {
 /// Returns (compared A→B, compared B→A) or a verdict to report.
 async fn rtp_exchange(
     cell: &Cell,
+    jumbo: bool,
     rng: &mut Rng,
     a: &mut Side,
     b: &mut Side,
@@ -1456,7 +1457,8 @@ async fn rtp_exchange(
     obs.insert("rx_tracks".into(), json!(tracks_per_side));
     drop(got_tx);
 
-    // what each side will send
+    // what each side will send; in every fourth cell the audio frames are as large as one datagram allows
+    obs.insert("audio_frame_size".into(), json!(if jumbo { "jumbo" } else { "small" }));
     let mut expects: BTreeMap<(&'static str, &'static str), Expect> = BTreeMap::new();
     for s in [&*a, &*b] {
         for (kind, _, _, pt) in &s.sources {
@@ -1468,7 +1470,12 @@ async fn rtp_exchange(
             for i in 0..K_RTP {
                 // tag: side, kind, index – so that a payload identifies its origin
                 let mut p = format!("C10|{}|{}|{:04}|", s.name, kind_name(*kind), i).into_bytes();
-                let extra = rng.range(8, 160) as usize;
+                let mut extra = rng.range(8, 160) as usize;
+                if jumbo && *kind == MediaKind::Audio {
+                    // one audio frame = one RTP packet whatever its size: datagrams just below the
+                    // 1500-byte read buffers (plain RTP: 12 + 1470 + extensions; SRTP: + 10..16 tag)
+                    extra = if cell.mode == "rtp" { 1470 } else { 1452 } - p.len();
+                }
                 p.extend_from_slice(&rng.bytes(extra));
                 payloads.push(Bytes::from(p));
                 ts.push(base_ts.wrapping_add(i.wrapping_mul(step)));
